@@ -139,10 +139,17 @@ def wl_ccf(ctx, rng, case):
     _ccf_run(ctx, rng, case, refill=False)
 
 
+def wl_ccf_after_refusals(ctx, rng, case):
+    """counting cuckoo: a crowded table (bins spilled into second buckets), some keys removed completely (free slots in first buckets), then
+    expansions that are REFUSED and rolled back (non-growing rate / one or two swaps), then more adds, removals and an explicit expansion:
+    every count exact after every call, whatever a refused call restored or forgot"""
+    _ccf_run(ctx, rng, case, refill="refusals")
+
+
 def _ccf_run(ctx, rng, case, refill):
     import probables as P
 
-    if case.index == 0:
+    if case.index == 0 and refill != "refusals":
         # one very hot key: a count beyond two bytes, on a table that kicks and expands around it
         f = P.CountingCuckooFilter(capacity=2, bucket_size=1, max_swaps=3, auto_expand=True, finger_size=2)
         n = 66000 if not refill else 65536
@@ -164,7 +171,7 @@ def _ccf_run(ctx, rng, case, refill):
         case.nontrivial = True
         return
 
-    if case.index in (1, 2, 3):
+    if case.index in (1, 2, 3) and refill != "refusals":
         # a BIG table (more slots than any block a loader might read at once, bucket sizes that divide no power of two) reloaded in the
         # middle of its history: every count exact before and after, the history continues on the loaded filter
         cap, bsz = rng.choice([(3000, 5), (4000, 3), (2500, 7), (10000, 3), (9000, 1), (3000, 6)])
@@ -200,12 +207,46 @@ def _ccf_run(ctx, rng, case, refill):
         case.nontrivial = True
         return
     cfg = ck.gen_cfg(rng, counting=True)
-    if refill:
+    if refill == "refusals":
+        cfg = ck.gen_cfg(rng, counting=True, allow_rate=False)
+        cfg.capacity = rng.choice([2, 3, 4, 5])
+        cfg.bucket_size = rng.choice([1, 2, 2, 3])
+        cfg.max_swaps = rng.choice([1, 1, 2, 3])
+        cfg.auto_expand = True
+        cfg.expansion_rate = rng.choice([1, 1, 2])
+        keys = ck.gen_keys(rng, cfg, rng.randint(6, 12))
+        if len(keys) < 4:
+            return
+        ops = []
+        for k in keys[: cfg.capacity * cfg.bucket_size]:
+            ops.extend([("add", k)] * rng.choice([1, 2]))
+        for k in rng.sample(keys, 2):
+            ops.extend([("remove", k)] * 2)
+        ops.append(("rate", 1))
+        for k in keys:
+            ops.append(("add", k))
+            if rng.random() < 0.3:
+                ops.extend([("remove", rng.choice(keys))] * 2)  # free slots again while expansions keep being refused
+        ops.append(("expand",))
+        ops.append(("rate", rng.choice([2, 3])))
+        for k in rng.sample(keys, 3):
+            ops.append(("remove", k))
+        ops.append(("expand",))
+        for k in rng.sample(keys, 3):
+            ops.append(("add", k))
+        refill = True
+        prebuilt = ops
+    else:
+        prebuilt = None
+    if prebuilt is not None:
+        pass
+    elif refill:
         cfg.capacity = rng.choice([2, 3, 4, 5, 8])
         cfg.bucket_size = rng.choice([1, 2, 2, 3])
         cfg.max_swaps = rng.choice([1, 2, 4])
-    keys = ck.gen_keys(rng, cfg, rng.randint(3, 10) if not refill else rng.randint(5, 14))
-    if cfg.hf is None and not cfg.err_bits and rng.random() < 0.2:
+    if prebuilt is None:
+        keys = ck.gen_keys(rng, cfg, rng.randint(3, 10) if not refill else rng.randint(5, 14))
+    if prebuilt is None and cfg.hf is None and not cfg.err_bits and rng.random() < 0.2:
         # keys whose raw fingerprint is 0 (the value that marks an empty slot in the export format, so the library stores another one):
         # they form ONE fingerprint class like any other colliding keys.  Keys with raw fingerprint 1 are left out, so that whatever
         # value the library uses instead of 0 - it documents 1 - meets no other key of the universe.
@@ -219,7 +260,9 @@ def _ccf_run(ctx, rng, case, refill):
         return
     # histories with repeated adds so that bins with count > 1 get kicked and re-inserted through expansions
     ops = []
-    if refill:
+    if prebuilt is not None:
+        ops = prebuilt
+    elif refill:
         for k in keys:
             ops.extend([("add", k)] * rng.choice([1, 1, 2]))
         for _ in range(rng.randint(3, 10)):
@@ -285,7 +328,7 @@ def _ccf_run(ctx, rng, case, refill):
                 break
 
     try:
-        ex = rngscript.explore(run, (300 if not refill else 80) if ctx.tier == "quick" else (15000 if not refill else 3000), sample_rng=_stdrandom.Random(rng.getrandbits(32)),
+        ex = rngscript.explore(run, (25 if prebuilt is not None else (300 if not refill else 80)) if ctx.tier == "quick" else (600 if prebuilt is not None else (15000 if not refill else 3000)), sample_rng=_stdrandom.Random(rng.getrandbits(32)),
                                extra_samples=30 if ctx.tier == "quick" else 300)
     finally:
         sc.cleanup()
@@ -311,6 +354,7 @@ PROP = Prop(
         Workload("cbf", wl_cbf, quick=1200, thorough=80000),
         Workload("ccf", wl_ccf, quick=250, thorough=3500),
         Workload("ccf_refill", wl_ccf_refill, quick=150, thorough=2200),
+        Workload("ccf_after_refusals", wl_ccf_after_refusals, quick=300, thorough=2500),
     ],
     assumptions=["below saturation; removals never exceed the key's outstanding count",
                  "history independence compares the library with itself on another history (fresh filter fed the outstanding multiset); cell semantics are pinned by C06/C16",
